@@ -75,6 +75,14 @@ def cases(tier, seed):
                     for cse in ((True,) if (n == 5 and tier == "quick") else (False, True)):
                         out.append({"kind": "single", "n": n, "shape": si, "perm": perm, "swap": swap,
                                     "cse": cse, "seed": seed, "tier": tier})
+    # the same shapes with the initial state numbered 0 and the final states 1..n (the
+    # labelling that DalitzPlotDecomposition's relabel_edge_ids produces)
+    for n in (2, 3, 4):
+        for si, shape in enumerate(R.isobar_topologies(n)):
+            perms = distinct_relabelings(shape, None if n == 3 else 2)
+            for perm in perms:
+                out.append({"kind": "single", "n": n, "shape": si, "perm": perm, "swap": False,
+                            "cse": True, "seed": seed, "tier": tier, "zero_based": True})
     # adapters with several topologies
     three = distinct_relabelings(R.isobar_topologies(3)[0])
     for k in (2, 3):
@@ -91,7 +99,7 @@ def cases(tier, seed):
     return out
 
 
-def build_topology(n, shape, perm, swap=False):
+def build_topology(n, shape, perm, swap=False, zero_based=False):
     topo = R.isobar_topologies(n)[shape]
     ids = list(range(n))
     if list(perm) != ids:
@@ -99,6 +107,8 @@ def build_topology(n, shape, perm, swap=False):
     if swap:
         inter = sorted(topo.intermediate_edge_ids)
         topo = topo.relabel_edges({inter[0]: inter[-1], inter[-1]: inter[0]})
+    if zero_based:
+        topo = topo.relabel_edges({e: e + 1 for e in topo.edges})
     return topo
 
 
@@ -158,8 +168,9 @@ def eval_case(case):
         outcomes[k] = outcomes.get(k, 0) + c
 
     if case["kind"] == "single":
-        topologies = [build_topology(n, case["shape"], case["perm"], case["swap"])]
-        desc = f"n={n} shape={case['shape']} perm={case['perm']} swap={case['swap']} cse={cse}"
+        topologies = [build_topology(n, case["shape"], case["perm"], case["swap"], case.get("zero_based", False))]
+        desc = f"n={n} shape={case['shape']} perm={case['perm']} swap={case['swap']} cse={cse}" + (
+            " zero-based" if case.get("zero_based") else "")
     else:
         topologies = [build_topology(n, si, perm) for si, perm in case["members"]]
         adapter = HelicityAdapter(topologies)
@@ -191,6 +202,8 @@ def eval_case(case):
         dalitz = {}
     for config in configs:
         ev, gamma2, masses, M = events_for(n, config, seed)
+        if case.get("zero_based"):
+            ev = {i + 1: p for i, p in ev.items()}
         scale = gamma2 * (1e3 if config == "threshold" else 1.0)
         values = [fn(ev) for fn in fns]
         merged_values = merged_fn(ev) if merged_fn is not None else None
@@ -291,14 +304,15 @@ def eval_case(case):
             topo = topologies[0]
             pair = sorted(topo.get_edge_ids_outgoing_from_node(
                 topo.edges[next(iter(topo.intermediate_edge_ids))].ending_node_id))
-            i, jj = pair[0] + 1, pair[1] + 1  # helicity child = smaller id; 1-based ids
+            shift = 0 if case.get("zero_based") else 1
+            i, jj = pair[0] + shift, pair[1] + shift  # helicity child = smaller id; 1-based ids
             _sym, expr = formulate_scattering_angle(i, jj)
             k = ({1, 2, 3} - {i, jj}).pop()
             subs = {}
             single_m = {"m_0": None}
             for j in range(n_events):
                 single = {a: p[j] for a, p in ev.items()}
-                p = {a + 1: single[a] for a in single}
+                p = {a + shift: single[a] for a in single}
                 val = {"m_0": math.sqrt(max(0.0, frames.minkowski_norm2(sum(single.values()))))}
                 for a in (1, 2, 3):
                     val[f"m_{a}"] = math.sqrt(max(0.0, float(frames.minkowski_norm2(p[a]))))
@@ -307,6 +321,8 @@ def eval_case(case):
                 subs = {s: val[s.name] for s in expr.free_symbols}
                 closed = complex(expr.doit().xreplace(subs).evalf())
                 name = "theta" + frames._suffix(topo, pair[0])  # noqa: SLF001
+                if name not in values[0]:
+                    break  # the name mismatch has been reported above
                 g = float(np.real(values[0][name][j]))
                 n_eval += 1
                 s = max(abs(math.sin(g)), 1e-6)
